@@ -193,6 +193,8 @@ class Interp:
         return key, ()
 
     def read_key(self, st, key, ty):
+        if ty is None and hasattr(self, "ktype"):
+            ty = self.ktype.get(key)
         v = st.env.get(key)
         if v is not None and v[0] == "havoc":
             ty = ty or self.ktype.get(key) if hasattr(self, "ktype") else ty
